@@ -34,9 +34,9 @@ type c02Case struct {
 	// and is switched to protobuf at its first restart (the upgrade path: the database is
 	// converted, a JSON snapshot is restored by a protobuf node)
 	JSONFirst bool
-	Seed   int64
-	Params verifgen.Params
-	Steps  []c02Step
+	Seed      int64
+	Params    verifgen.Params
+	Steps     []c02Step
 }
 
 func c02Schedule(rng *rand.Rand, n int) []c02Step {
@@ -377,8 +377,20 @@ func runC02Case(rep *verifrep.R, dir string, c c02Case) {
 			if st.Kind == "snapshot-fail" {
 				fail = st.FailAfter
 			}
+			r.f.sinkFailCall = -1
+			if fail >= 0 && snapIndex%2 == 1 {
+				// every other failing snapshot: one particular Write call fails (calls 0 and 1
+				// carry the state), for half of them only that call
+				r.f.sinkFailCall = 2 + int((snapIndex/2+uint64(fail))%9)
+				r.f.sinkFailTransient = (snapIndex/2)%2 == 0
+				r.rep.Obs(fmt.Sprintf("snapshot.failing-write-call.transient=%v", r.f.sinkFailTransient), 1)
+			}
 			rs, persisted, err := r.f.snapshot(snapIndex, cstart, fail)
 			r.f.betweenSnapshotAndPersist = nil
+			r.f.sinkFailCall = -1
+			if r.f.sinkErrorSwallowed {
+				r.viol("persist:write-error-swallowed", fmt.Sprintf("%s: a write to the snapshot sink failed while the snapshot of index %d was persisted, but Persist returned nil: the snapshot is finalized without what that write carried", name, snapIndex))
+			}
 			if err != nil {
 				if firstBefore == 0 && strings.Contains(err.Error(), "< 1") {
 					// an empty log copy cannot be snapshotted; nothing changes
@@ -531,6 +543,19 @@ func TestVerifC02(t *testing.T) {
 				}
 			}
 			c.Steps = append(c.Steps, c02Step{Kind: "snapshot", CutAt: 1 << 30}, c02Step{Kind: "restore"})
+		}
+		if k%5 == 2 && !p.NoConfig {
+			// the history goes on with a short session expiration followed by a configuration that
+			// does not set it at all (the default applies); all of that is applied by the running
+			// node, which then compacts with a horizon inside the history
+			c.Params.Tail = true
+			c.Params.TailForce = []int{3}
+			cut := p.Len - 3
+			if cut < 0 {
+				cut = 0
+			}
+			c.Steps = append(c.Steps, c02Step{Kind: "apply", N: 1 << 20}, c02Step{Kind: "snapshot", CutAt: cut}, c02Step{Kind: "restore"})
+			rep.Obs("histories-ending-without-configured-expiration", 1)
 		}
 		if k == 0 {
 			rep.Sample(map[string]interface{}{"seed": seed, "history_len": p.Len, "steps": c.Steps})
